@@ -47,6 +47,7 @@ fn drive_attr<R: Reader<Offset = usize>>(
     unit: &read::Unit<R>,
     attr: &read::Attribute<R>,
     found: &mut Found<R>,
+    lb: (usize, usize),
 ) {
     let _ = v!(o, "Attribute::raw_value", attr.raw_value());
     let value = v!(o, "Attribute::value", attr.value());
@@ -69,11 +70,17 @@ fn drive_attr<R: Reader<Offset = usize>>(
     if let Some(Some(off)) = c!(o, "Dwarf::attr_ranges_offset", dwarf.attr_ranges_offset(unit, value.clone())) {
         if found.ranges.len() < CAP {
             found.ranges.push(off);
+            if let Some(Some(mut it)) = c!(o, "Dwarf::attr_ranges", dwarf.attr_ranges(unit, value.clone())) {
+                pump!(o, "RngListIter", false, lb.0, it.next(), |_r| {});
+            }
         }
     }
     if let Some(Some(off)) = c!(o, "Dwarf::attr_locations_offset", dwarf.attr_locations_offset(unit, value.clone())) {
         if found.locs.len() < CAP {
             found.locs.push(off);
+            if let Some(Some(mut it)) = c!(o, "Dwarf::attr_locations", dwarf.attr_locations(unit, value.clone())) {
+                pump!(o, "LocListIter", false, lb.1, it.next(), |_r| {});
+            }
         }
     }
     match value {
@@ -90,13 +97,14 @@ fn drive_entry<R: Reader<Offset = usize>>(
     unit: &read::Unit<R>,
     entry: &read::DebuggingInformationEntry<R>,
     found: &mut Found<R>,
-    ranges_bound: usize,
+    lb: (usize, usize),
 ) {
+    let ranges_bound = lb.0;
     if found.offsets.len() < CAP {
         found.offsets.push(entry.offset());
     }
     for attr in entry.attrs() {
-        drive_attr(o, dwarf, unit, attr, found);
+        drive_attr(o, dwarf, unit, attr, found, lb);
     }
     if let Some(mut it) = c!(o, "Dwarf::die_ranges", dwarf.die_ranges(unit, entry)) {
         pump!(o, "RangeIter", false, ranges_bound + 1, it.next(), |_r| {});
@@ -250,7 +258,7 @@ fn drive_unit<R: Reader<Offset = usize>>(o: &mut Obs, dwarf: &read::Dwarf<R>, un
                 n += 1;
                 if n <= cfg.max_entries {
                     let entry = entry.clone();
-                    drive_entry(o, dwarf, unit, &entry, &mut found, rbound);
+                    drive_entry(o, dwarf, unit, &entry, &mut found, lb);
                     o.start("EntriesCursor::next_dfs");
                 } else if o.over() {
                     break;
@@ -601,7 +609,7 @@ fn drive_dwarf<R: Reader<Offset = usize>>(o: &mut Obs, dwarf: &read::Dwarf<R>, c
         let _ = v!(o, "Dwarf::lookup_offset_id", dwarf.lookup_offset_id(dwarf.debug_info.reader().offset_id()));
         let _ = v!(o, "Dwarf::format_error", dwarf.format_error(gimli::Error::UnexpectedEof(dwarf.debug_info.reader().offset_id())).len());
     });
-    let sample = pick_units(&headers, cfg.max_units, rng);
+    let sample = pick_units(&headers, cfg.max_units, &mut Rng::new(cfg.sample ^ 0x77));
     for h in sample {
         let mut urng = Rng::new(rng.next());
         group(o, cfg, gname[1], |o| {
